@@ -19,7 +19,7 @@ from vf.xmodel import Schema, Rop, Shadow, Bound
 SHARDS = {'quick': 16, 'thorough': 64}
 TIMEOUT = {'quick': 1500, 'thorough': 7200}
 MUST_HIT = ['Call.same-named-operations-of-two-classes', 'Call.name-differs-in-case-only-function', 'Call.name-differs-in-case-only-external-entity', 'Call.python-function', 'Call.python-bridge', 'Call.python-class-operation',
-            'Call.derived-attribute-early-bare-return', 'Scope.local-named-like-parameter', 'Call.argument-order-observable', 'Call.earlier-component-rechecked', 'Call.builtin-external-entity', 'Call.legacy-keyword-bridge', 'Call.legacy-keyword-transform', 'Call.python-instance-operation', 'Call.derived-attribute', 'Call.derived-attribute-outside-state', 'Call.enumerator', 'Call.constant',
+            'Call.derived-attribute-early-bare-return', 'Scope.local-named-like-parameter', 'Call.argument-order-observable', 'Call.operand-order-observable', 'Call.earlier-component-rechecked', 'Call.builtin-external-entity', 'Call.legacy-keyword-bridge', 'Call.legacy-keyword-transform', 'Call.python-instance-operation', 'Call.derived-attribute', 'Call.derived-attribute-outside-state', 'Call.enumerator', 'Call.constant',
             'Call.nested', 'Call.recursive', 'Call.return-inside-while-body', 'Call.return-inside-for-each-body', 'Call.bare-return', 'Call.no-return', 'Call.in-where-clause',
             'Call.in-loop-condition', 'Scope.caller-variable-kept', 'State.compared']
 MUST_REACH = ['bridgepoint/ooaofooa.py:mk_function', 'bridgepoint/ooaofooa.py:mk_bridge',
@@ -98,6 +98,7 @@ def call_node(e, args, target=None):
 LEGACY = {}
 SHADOWED = [0]
 ARG_ORDER = [0]
+OPERAND_ORDER = [0]
 EARLY = {}
 PREVIOUS = []
 DER_FORMS = {}
@@ -354,6 +355,20 @@ class ModelGen(object):
                 if v not in locals_ or locals_[v] == INT:
                     stmts.append(oalsem.assign(oalsem.var(v), call_node(pair[0], {
                         'a': oalsem.attr(oalsem.self_(), 'N'), 'b': call_node(bump[0], {})})))
+                    locals_[v] = INT
+        if e.kind == 'iop' and r.random() < 0.4:
+            # the operands of an operator are evaluated from left to right as well: self.N <op> bump_all() reads the
+            # attribute as it was before bump_all changed it
+            bump = [x for x in self.elems[:rank] if x.name == 'bump_all']
+            if bump:
+                v = self.fresh()
+                if v not in locals_ or locals_[v] == INT:
+                    OPERAND_ORDER[0] += 1
+                    left = oalsem.attr(oalsem.self_(), 'N')
+                    right = call_node(bump[0], {})
+                    if r.random() < 0.5:
+                        right = oalsem.bin_('*', right, oalsem.attr(oalsem.self_(), 'N'))
+                    stmts.append(oalsem.assign(oalsem.var(v), oalsem.bin_(r.choice(('+', '-', '*')), left, right)))
                     locals_[v] = INT
         for _ in range(r.randint(0, 3)):
             k = r.random()
@@ -655,7 +670,7 @@ def run_case(ctx, rng):
             return
         desc = '%s %s(%s)' % (e.kind, e.name, ', '.join('%s=%r' % kv for kv in sorted(kwargs.items())))
         try:
-            with cpu_budget(30):
+            with cpu_budget(15):
                 if e.kind == 'f':
                     ctx.hit('Call.python-function')
                     got = comp.find_symbol(e.name)(**kwargs)
@@ -817,12 +832,19 @@ def run(ctx):
             builtin_entities(ctx, rng)
         except Mismatch as e:
             ctx.violation(e.key, e.what, case=dict(what=e.what))
+    unending = 0
     for _ in range(ctx.share(480 if ctx.tier == 'quick' else 20000)):
         try:
             run_case(ctx, rng)
             ctx.count('models')
         except Mismatch as e:
             ctx.violation(e.key, e.what, case=dict(what=e.what))
+            if e.key == 'invocation/non-termination':
+                unending += 1
+                if unending >= 5:
+                    # every further invocation that does not end costs another budget; five reports are enough
+                    ctx.count('shard_stopped_after_five_invocations_that_did_not_end')
+                    break
     for k, v in LEGACY.items():
         ctx.hit('Call.legacy-keyword-' + k, v)
     for k, v in DER_FORMS.items():
@@ -831,6 +853,7 @@ def run(ctx):
         ctx.hit('Call.name-differs-in-case-only-' + k, v)
     ctx.hit('Call.same-named-operations-of-two-classes', SAME_NAMED_OPS[0])
     ctx.hit('Call.argument-order-observable', ARG_ORDER[0])
+    ctx.hit('Call.operand-order-observable', OPERAND_ORDER[0])
     ctx.hit('Scope.local-named-like-parameter', SHADOWED[0])
     for k, n in EARLY.items():
         ctx.hit('Call.return-inside-%s-body' % k, n)
